@@ -44,9 +44,13 @@ var trTargets = []trTarget{
 	{Pkg: evm + "x/evm/utils", Name: "EthTxEffectiveGasPrice"},
 	{Pkg: evm + "x/evm/utils", Name: "EthTxEffectiveFee"},
 	{Pkg: evm + "x/evm/utils", Name: "CheckIfAccountIsSuitableForDestroyingAt"},
+	{Pkg: evm + "app/antedl/utils", Name: "HasSingleEthereumMessage"},
+	{Pkg: evm + "app/antedl/utils", Name: "IsEthereumTx"},
 	{Pkg: evm + "app/antedl/duallane", Name: "validateSingleFee"},
 	{Pkg: evm + "app/antedl/duallane", Name: "getMinGasPricesAllowed"},
 	{Pkg: evm + "app/antedl/duallane", Name: "getTxPriority"},
+	{Pkg: evm + "app/antedl/duallane", Name: "EthereumTxFeeChecker"},
+	{Pkg: evm + "app/antedl/duallane", Name: "CosmosTxFeeChecker"},
 	{Pkg: evm + "x/evm/keeper", Recv: "StateTransition", Name: "gasUsed"},
 	{Pkg: evm + "x/evm/keeper", Recv: "StateTransition", Name: "buyGas"},
 	{Pkg: evm + "x/evm/keeper", Recv: "StateTransition", Name: "preCheck"},
@@ -79,6 +83,8 @@ const (
 	kOpaque
 	kFunc
 	kUnit
+	kPtrSdk // *sdkmath.Int: nil or a value
+	kOList  // a slice of opaque objects
 )
 
 type lty struct {
@@ -191,6 +197,8 @@ func (g *gen) classify(t types.Type) lty {
 		return lty{k: kSdk, lean: "Int"}
 	case "cosmossdk.io/math.LegacyDec":
 		return lty{k: kDec, lean: "Int"}
+	case "*cosmossdk.io/math.Int":
+		return lty{k: kPtrSdk, lean: "(Option Int)"}
 	case "error":
 		return lty{k: kErr, lean: "Option String"}
 	case "github.com/cosmos/cosmos-sdk/types.Coin":
@@ -198,6 +206,24 @@ func (g *gen) classify(t types.Type) lty {
 	case "github.com/cosmos/cosmos-sdk/types.Coins", "[]github.com/cosmos/cosmos-sdk/types.Coin":
 		return lty{k: kCoins, lean: "List Go.Coin"}
 	}
+	if a, ok := t.(*types.Alias); ok {
+		// an alias of an unnamed interface / struct keeps its own name (sdk.Msg); otherwise look through it
+		ua := types.Unalias(a)
+		if _, isNamed := ua.(*types.Named); !isNamed {
+			if _, isPtr := ua.(*types.Pointer); !isPtr {
+				switch ua.Underlying().(type) {
+				case *types.Interface, *types.Struct:
+					name := a.Obj().Name()
+					if a.Obj().Pkg() != nil {
+						name = a.Obj().Pkg().Name() + "_" + name
+					}
+					return lty{k: kOpaque, lean: name, opaque: name}
+				}
+			}
+		}
+		return g.classify(ua)
+	}
+	_, isNamedType := t.(*types.Named)
 	switch u := t.Underlying().(type) {
 	case *types.Basic:
 		info := u.Info()
@@ -224,6 +250,10 @@ func (g *gen) classify(t types.Type) lty {
 	case *types.Slice:
 		if b, ok := u.Elem().Underlying().(*types.Basic); ok && b.Kind() == types.Uint8 {
 			return lty{k: kBytes, lean: "List Nat"}
+		}
+		if ek := g.classifySafe(u.Elem()); ek.k == kOpaque && !isNamedType {
+			g.structOf(ek.opaque)
+			return lty{k: kOList, lean: "(List " + ek.opaque + ")", opaque: ek.opaque}
 		}
 	case *types.Signature:
 		var ps, rs []string
@@ -265,6 +295,15 @@ func (g *gen) classify(t types.Type) lty {
 	if a, ok := tt.(*types.Alias); ok {
 		return g.classify(types.Unalias(a))
 	}
+	if it, ok := tt.(*types.Interface); ok && it.NumMethods() > 0 {
+		// an unnamed interface (sdk.Msg is an alias of one): named by its methods
+		var ms []string
+		for i := 0; i < it.NumMethods() && i < 3; i++ {
+			ms = append(ms, it.Method(i).Name())
+		}
+		name := "iface_" + strings.Join(ms, "_")
+		return lty{k: kOpaque, lean: name, opaque: name}
+	}
 	trFail("unsupported type %s", s)
 	return lty{}
 }
@@ -305,6 +344,8 @@ type fnCtx struct {
 	aux    []string
 	nloop  int
 	retTy  string
+	idxRoot   map[*ast.IndexExpr]types.Object // elements of opaque slices bound to a name
+	loopRoots []types.Object                  // opaque loop variables in scope
 }
 
 func (f *fnCtx) nameOf(o types.Object) string {
@@ -389,6 +430,19 @@ func (f *fnCtx) pathOf(e ast.Expr) (pathVal, []ast.Expr, bool) {
 			p.segs = append(p.segs, "deref")
 			return p, nil, true
 		}
+	case *ast.IndexExpr:
+		if o, ok := f.idxRoot[x]; ok {
+			return pathVal{root: o, st: f.roots[o]}, nil, true
+		}
+	case *ast.TypeAssertExpr:
+		// the single-value form: panics on another dynamic type — the caller has checked the type (assumed)
+		if x.Type != nil {
+			p, args, ok := f.pathOf(x.X)
+			if ok && args == nil {
+				p.segs = append(p.segs, "as_"+sanitize(strings.TrimPrefix(exprFull(x.Type), "*")))
+				return p, nil, true
+			}
+		}
 	case *ast.CallExpr:
 		if sel, ok := x.Fun.(*ast.SelectorExpr); ok {
 			p, args, ok := f.pathOf(sel)
@@ -441,6 +495,9 @@ func (f *fnCtx) pathValue(p pathVal, args []ast.Expr, rt lty, e ast.Expr) string
 	lt := rt.lean
 	if rt.k == kOpaque {
 		trFail("opaque value %s (type %s) used where a value is needed", f.src(e), rt.lean)
+	}
+	if rt.k == kOList {
+		lt = "List " + rt.opaque
 	}
 	var as []string
 	if len(args) > 0 {
